@@ -90,7 +90,7 @@ pub fn seq_case_from_bytes(data: &[u8]) -> SeqCase {
             12 => if byte(u) % 2 == 0 { Op::DeadlineWalk { k: byte(u) % max_key } } else {
                 Op::JumpDuring { after_reads: byte(u) % 4, by_ms: pick(u, &[1u32, 500, 1001, 2500]), op: Box::new(write_op(u, max_key)) }
             },
-            13 if byte(u) % 3 == 0 => Op::ExpiredWrite { k: byte(u) % max_key, past_ms: pick(u, &[0u32, 1, 998, 1500, 3000]), write: Box::new(write_op(u, max_key)) },
+            13 if byte(u) % 3 == 0 => Op::ExpiredWrite { k: byte(u) % max_key, past_ms: pick(u, &[0u32, 1, 998, 1500, 3000]), write: Box::new(write_op(u, max_key)), read_first: byte(u) % 2 == 0 },
             13 => if byte(u) % 4 == 0 { Op::Fill { first: byte(u) % 100, count: 10 + byte(u) % 60, w: 1 + byte(u) % 5, ttl: if byte(u) % 2 == 0 { None } else { Some(TtlSel::Secs((byte(u) % 7) as u32)) } } } else { Op::SweepRotation },
             14 => if byte(u) % 2 == 0 { Op::ReadAll { keys: vec![byte(u) % max_key] } } else {
                 let count = 2 + byte(u) % 3;
